@@ -100,7 +100,7 @@ func runGwHist(c *rig.Ctx, cs Case, m mode) int {
 		return v.flush(c, m)
 	}
 	ts := world()
-	g := clientsets.VerifC13NewClientSets(&rest.Config{Host: ts.URL}, func(string) []string { return []string{ts.URL} }, int(cs.ShardCount), eps)
+	g := newGateway(&rest.Config{Host: ts.URL, QPS: 10000, Burst: 10000}, func(string) []string { return []string{ts.URL} }, int(cs.ShardCount), eps)
 
 	// one look-up of every name; round < 0: before the first sync
 	look := func(round int, ml gwLook, n int64, srvLeaders map[int]string) {
@@ -127,19 +127,19 @@ func runGwHist(c *rig.Ctx, cs Case, m mode) int {
 				// judge: after a sync the gateway's shard of every name is the servers' shard under the CURRENT count,
 				// and its client addresses the leader the servers record for that shard
 				ss := implShard(name, int(n))
-				if sid != ss {
+				if sid != ss && namesShard(sid) {
 					fail("judge", "c13.sides-disagree", fmt.Sprintf("%s the gateway maps %q to shard %s, the servers to %s", where, name, sid, ss), sid, ss)
 					continue
 				}
 				if s, err := strconv.Atoi(ss); err == nil {
-					if l, known := srvLeaders[s]; known && l != "" && cf != "url:"+l {
+					if l, known := srvLeaders[s]; known && l != "" && cf != "url:"+l && addresses(cf) {
 						fail("judge", "c13.route", fmt.Sprintf("%s upstream %q is in shard %d led by %s, but ClientFor answers %s", where, name, s, l, cf), cf, l)
 						continue
 					}
 				}
 			}
 			if s, err := strconv.Atoi(sid); err == nil {
-				if l, known := leaders[s]; known && cf != "url:"+expectURL(l) {
+				if l, known := leaders[s]; known && cf != "url:"+expectURL(l) && addresses(cf) {
 					fail("judge", "c13.route", fmt.Sprintf("%s the gateway knows %q as leader of shard %d of %q, but ClientFor answers %s", where, l, s, name, cf), cf, l)
 					continue
 				}
